@@ -334,7 +334,7 @@ def run(ctx):
     import mirrorcheck
     q = ctx.quick()
     plans = [
-        {"world": "focus_conc", "conc": True, "steps": 6 if q else 7},
+        {"world": "focus_conc", "conc": True, "steps": 6 if q else 7, "cap": None if q else 80000},
         {"world": "focus_valsets", "cover": True, "steps": 6 if q else 7, "avoid": True},
         {"world": "equivocation", "sim": 3 if q else 20, "steps": 7 if q else 9, "avoid": True, "cap": 220 if q else 3000, "seeds": 1 if q else 2},
         {"world": "equivocation_heavy", "sim": 3 if q else 20, "steps": 7 if q else 9, "avoid": True, "cap": 220 if q else 3000, "seeds": 1 if q else 2},
